@@ -113,3 +113,61 @@ func HarnessC10Shared() {
 		zzvrt.Check("C10.recursive-value-kept", zzvrt.OInt(r, "First/Next/Next/V") == zzvrt.DInt(d, "first/next/next/v"))
 	}
 }
+
+// HarnessC10Names: K definitions whose names normalise to ONE Go identifier, each with a
+// schema drawn from a small pool (repetitions allowed, so equal schemas may share a
+// declaration and different ones get suffixed names); every property that references a
+// definition accepts exactly the documents of ITS definition's schema.
+func HarnessC10Names() {
+	names := []string{"line-ref", "lineRef", "line_ref", "LineRef"}[:zzvrt.Param("NAMES", 3)]
+	pool := []string{"integer", "string", "boolean"}
+	defs := schemas.Definitions{}
+	props := map[string]*schemas.Type{}
+	specs := map[string]*zzSpec{}
+	cls := ""
+	for i, nm := range names {
+		k := pool[zzvrt.Choice(len(pool))]
+		defs[nm] = &schemas.Type{Type: schemas.TypeList{k}}
+		p := "p" + string(rune('0'+i))
+		props[p] = &schemas.Type{Ref: "#/$defs/" + nm}
+		specs[p] = &zzSpec{kind: k}
+		cls += k[:1]
+	}
+	root := &schemas.Type{Type: schemas.TypeList{"object"}, Properties: props}
+	sch := &schemas.Schema{ObjectAsType: (*schemas.ObjectAsType)(root), ID: "https://example.com/root", Definitions: defs}
+	g, err := New(Config{DefaultPackageName: "example.com/gen", DefaultOutputName: "root.go", Warner: func(string) {},
+		Tags: []string{"json", "yaml", "mapstructure"}})
+	if err != nil {
+		zzvrt.Unreachable("New failed")
+	}
+	zzvrt.Witness("schema", sch)
+	zzvrt.Note("kinds=" + cls)
+	if err := g.addFile("root.json", sch); err != nil {
+		zzvrt.Note(err.Error())
+		zzvrt.Check("C10.names.generates", false)
+		return
+	}
+	src := string(g.Sources()["root.go"])
+	zzvrt.Emit("root.go", src)
+	h := zzvrt.Stage2(src)
+	if !zzvrt.S2OK(h) {
+		zzvrt.Note(zzvrt.S2Errors(h))
+		zzvrt.Check("C10.names.compiles", false)
+		return
+	}
+	d := zzvrt.NewDoc()
+	zzTypeCorrectObject(d)
+	f := zzAllTrue()
+	for i := range names {
+		p := "p" + string(rune('0'+i))
+		f = f.and(zzMember(d, p, specs[p], false, 1))
+	}
+	zzvrt.Assume(zzvrt.Not(f.dontCare))
+	_, accepted, ok := zzRunT("C10.names", h, g.getRootTypeName(sch, "root.json"), "json", d)
+	if !ok {
+		return
+	}
+	zzvrt.Cover("colliding-names:" + cls)
+	zzvrt.Check("C10.names.each-reference-means-its-own-definition", zzvrt.Iff(accepted, f.all()))
+	zzvrt.Check("C03.names.wrong-type-rejected-through-colliding-definition-names", zzvrt.Iff(accepted, f.typ))
+}
